@@ -280,7 +280,9 @@ def r04_4(ctx):
     getters = sorted({a.attr for m in cls.methods.values() for a in ast.walk(m.node)
                       if isinstance(a, ast.Attribute) and a.attr.startswith('__') and not a.attr.endswith('__') and src(a.value) == 'self'})
     ctx.decide('R04.4', cc.qual, 'clears %s; cached fields in use: %s' % (fields, getters),
-               set('self.' + g for g in getters) <= set(fields), cc.node, 'every private cache field is reset')
+               set('self.' + g for g in getters) <= set(fields), cc.node,
+               'every private cache field is reset by _clear_cache (a field that is only initialised in __init__ keeps describing the '
+               'space before the refinement: stale Dirichlet / global index lists)', definite=True)
 
 
 def _callers_clear(cls, m, is_clear, seen=None):
@@ -354,7 +356,41 @@ def r04_6(ctx):
         cp = [s for s in guards.preceding_statements(c) if isinstance(s, ast.Assign) and src(s.targets[0]) == 'marked']
         ctx.decide('R04.6', hr.qual, 'caller\'s dict is not modified: ' + (src(cp[0])[:70] if cp else 'no copy'), bool(cp), c,
                    '`marked` is rebound to a new dict before marks are added')
+    # the marking closure is started on EVERY level: _mark_recursive(l) only visits l, l-d, l-2d, ... (it recurses on
+    # l - disparity, checked below), and it stops as soon as one neighbourhood is empty, so marks the caller put on other
+    # levels are closed only if each level is a starting point
+    for c in calls:
+        lp = guards.in_loop(c, hr.node)
+        if lp is None or not isinstance(lp, ast.For):
+            ctx.violated('R04.6', hr.qual, 'marking closure started on every level', c,
+                         '`%s` is called once, not for every level: the recursion steps down by the disparity and stops at the first empty '
+                         'neighbourhood, so marks on the levels it does not visit are never closed (level disparity violated for marks on several '
+                         'levels in one call)' % src(c)[:70])
+            continue
+        it = src(lp.iter).replace(' ', '')
+        all_levels = it in ('range(self.numlevels)', 'reversed(range(self.numlevels))', 'range(len(self.hmesh.meshes))',
+                            'range(self.numlevels-1,-1,-1)')
+        first_arg = c.args[0] if c.args else None
+        uses_var = isinstance(first_arg, ast.Name) and isinstance(lp.target, ast.Name) and first_arg.id == lp.target.id
+        ctx.decide('R04.6', hr.qual, 'marking closure started on every level: for %s in %s' % (src(lp.target), src(lp.iter)),
+                   True if (all_levels and uses_var) else None, lp, 'each level is a starting point of the recursive marking')
     cn = ctx.prog.func(H + '.HSpace._cell_neighborhood')
+    # every non-empty neighbourhood is a set of ACTIVE cells of level l - disparity: HMesh.refine re-activates the children
+    # of whatever it is given, so a mark on a cell that is already refined (or was never created) puts cells back that are
+    # deactivated -- the tiling is covered twice
+    for r in guards.returns_of(cn.node):
+        if r.value is None or src(r.value) in ('set()',):
+            continue
+        acts = [x for x in ast.walk(r.value) if isinstance(x, ast.Subscript) and src(x.value) == 'self.hmesh.active']
+        conds = ' and '.join(('' if p else 'not ') + t for (t, p, _n) in guards.path_conditions(r)) or 'always'
+        if not acts:
+            ctx.violated('R04.6', cn.qual, 'neighbourhood under (%s) is restricted to active cells' % conds, r,
+                         '`%s` is not intersected with self.hmesh.active[l - disparity]: the marking hands HMesh.refine cells that are already '
+                         'refined, whose children are then activated a second time' % src(r)[:90])
+        else:
+            ctx.formula('R04.6', cn.qual, src(acts[0].slice).replace('k', '(l - self.disparity)') if src(acts[0].slice) == 'k' else acts[0].slice,
+                        'l - self.disparity', r, 'active cells of the level the neighbourhood lives on',
+                        label='neighbourhood under (%s) is restricted to the active cells of level %s' % (conds, src(acts[0].slice)))
     first = cn.node.body[0]
     # semantic: the guard must be equivalent to  l - disparity <= -1  (affine comparison)
     ok = None
